@@ -15,7 +15,7 @@ func init() {
 }
 
 func genC01(c *Ctx, r *rng.R, i int) {
-	if i < 9 {
+	if i < 12 {
 		c01Corpus(c, i)
 		return
 	}
@@ -296,6 +296,21 @@ func c01Corpus(c *Ctx, i int) {
 		c01Pair(c, "OMul", []cty.Value{cty.NumberIntVal(-1), cty.NumberIntVal(-2)}, []cty.Value{mk(-3, -1), mk(-5, -2)}, true)
 		c01Pair(c, "OMul", []cty.Value{cty.NumberIntVal(-3), cty.NumberIntVal(-5)}, []cty.Value{mk(-3, -1), mk(-5, -2)}, true)
 		c01Pair(c, "OMul", []cty.Value{cty.NumberIntVal(4), cty.NumberIntVal(-6)}, []cty.Value{mk(-2, 4), mk(-6, 3)}, true)
+	case 9: // candidate element whose type is only partly known (fixed: 06b2970)
+		st := cty.SetVal([]cty.Value{cty.ListVal([]cty.Value{cty.StringVal("a")}), cty.ListValEmpty(cty.String)})
+		c01Pair(c, "OHasElem", []cty.Value{st, cty.ListValEmpty(cty.String)}, []cty.Value{st, cty.UnknownVal(cty.List(cty.DynamicPseudoType))}, true)
+		c01Pair(c, "OHasElem", []cty.Value{st, cty.ListValEmpty(cty.String)}, []cty.Value{st, cty.UnknownVal(cty.List(cty.DynamicPseudoType)).RefineNotNull()}, true)
+	case 10: // placeholders at different positions of the two operands (fixed: ac6172c)
+		x := cty.TupleVal([]cty.Value{cty.StringVal("a"), cty.NumberIntVal(1)})
+		c01Pair(c, "OEq", []cty.Value{x, x}, []cty.Value{cty.TupleVal([]cty.Value{cty.DynamicVal, cty.NumberIntVal(1)}), cty.TupleVal([]cty.Value{cty.StringVal("a"), cty.DynamicVal})}, true)
+		o := cty.ObjectVal(map[string]cty.Value{"p": cty.True, "q": cty.ListVal([]cty.Value{cty.Zero})})
+		c01Pair(c, "OEq", []cty.Value{o, o}, []cty.Value{cty.ObjectVal(map[string]cty.Value{"p": cty.DynamicVal, "q": cty.ListVal([]cty.Value{cty.Zero})}), cty.ObjectVal(map[string]cty.Value{"p": cty.True, "q": cty.DynamicVal})}, true)
+	case 11: // an unknown whose type constraint has a placeholder inside, against a known value
+		l := cty.ListVal([]cty.Value{cty.StringVal("a")})
+		c01Pair(c, "OEq", []cty.Value{l, l}, []cty.Value{cty.UnknownVal(cty.List(cty.DynamicPseudoType)), l}, true)
+		c01Pair(c, "OEq", []cty.Value{l, l}, []cty.Value{l, cty.UnknownVal(cty.List(cty.DynamicPseudoType))}, true)
+		ob := cty.ObjectVal(map[string]cty.Value{"a": cty.TupleVal([]cty.Value{cty.True})})
+		c01Pair(c, "OEq", []cty.Value{ob, ob}, []cty.Value{cty.UnknownVal(cty.Object(map[string]cty.Type{"a": cty.Tuple([]cty.Type{cty.DynamicPseudoType})})), ob}, true)
 	default: // object with one unknown and one unequal attribute (fixed: order independence)
 		x := cty.ObjectVal(map[string]cty.Value{"a": cty.StringVal("x"), "b": cty.NumberIntVal(1)})
 		y := cty.ObjectVal(map[string]cty.Value{"a": cty.StringVal("x"), "b": cty.NumberIntVal(2)})
